@@ -31,10 +31,32 @@ type config struct {
 	Second string `json:"second_quota,omitempty"`
 }
 
+// effective expiry / collector interval (documented defaults when not configured)
+func effExp(sec int64) time.Duration {
+	if sec == 0 {
+		return 60 * time.Second
+	}
+	return time.Duration(sec) * time.Second
+}
+
+func effGC(sec int64) time.Duration {
+	if sec == 0 {
+		return 30 * time.Second
+	}
+	return time.Duration(sec) * time.Second
+}
+
 func (c config) quotaYAML() string {
+	// an expiry / collector interval of 0 means "not configured": the documented defaults (60 s / 30 s) apply
 	conc := func(indent string, max, exp, gc int64) string {
-		return fmt.Sprintf("%sstrategy:\n%s  concurrent:\n%s    max_request_count: %d\n%s    request_expiration_sec: %d\n%s    gc_interval_sec: %d\n",
-			indent, indent, indent, max, indent, exp, indent, gc)
+		y := fmt.Sprintf("%sstrategy:\n%s  concurrent:\n%s    max_request_count: %d\n", indent, indent, indent, max)
+		if exp != 0 {
+			y += fmt.Sprintf("%s    request_expiration_sec: %d\n", indent, exp)
+		}
+		if gc != 0 {
+			y += fmt.Sprintf("%s    gc_interval_sec: %d\n", indent, gc)
+		}
+		return y
 	}
 	second := ""
 	if c.Second != "" {
@@ -179,10 +201,11 @@ type hist struct {
 
 func genConfig() *rapid.Generator[config] {
 	return rapid.Custom(func(t *rapid.T) config {
-		c := config{Max: rapid.Int64Range(1, 4).Draw(t, "max"), ExpireSec: rapid.Int64Range(1, 5).Draw(t, "exp"), GCSec: rapid.Int64Range(1, 3).Draw(t, "gc")}
+		// one case in four leaves the expiry, and one in four the collector interval, to its default
+		c := config{Max: rapid.Int64Range(1, 4).Draw(t, "max"), ExpireSec: rapid.SampledFrom([]int64{0, 1, 2, 3, 4, 5, 2, 3}).Draw(t, "exp"), GCSec: rapid.SampledFrom([]int64{0, 1, 2, 3}).Draw(t, "gc")}
 		if rapid.IntRange(0, 2).Draw(t, "parent") == 0 {
 			c.Parent = true
-			c.PMax, c.PExpire, c.PGC = rapid.Int64Range(1, 4).Draw(t, "pmax"), rapid.Int64Range(1, 5).Draw(t, "pexp"), rapid.Int64Range(1, 3).Draw(t, "pgc")
+			c.PMax, c.PExpire, c.PGC = rapid.Int64Range(1, 4).Draw(t, "pmax"), rapid.SampledFrom([]int64{0, 1, 2, 3, 4, 5}).Draw(t, "pexp"), rapid.SampledFrom([]int64{0, 1, 2, 3}).Draw(t, "pgc")
 		}
 		c.Second = rapid.SampledFrom([]string{"", "", "after", "before"}).Draw(t, "second")
 		return c
@@ -194,7 +217,7 @@ func genSteps(c config) *rapid.Generator[[]step] {
 		n := rapid.IntRange(4, 40).Draw(t, "len")
 		out := []step{}
 		next := 1
-		exp, gc := time.Duration(c.ExpireSec)*time.Second, time.Duration(c.GCSec)*time.Second
+		exp, gc := effExp(c.ExpireSec), effGC(c.GCSec)
 		for k := 0; k < n; k++ {
 			switch rapid.IntRange(0, 11).Draw(t, "op") {
 			case 0, 1, 2, 3:
@@ -378,12 +401,12 @@ func runHistoryInner(h hist) (nontrivial bool, classes map[string]int, err error
 		return false, classes, infraErr{fmt.Sprintf("generated configuration was rejected: %v\n%s", e, h.Config.quotaYAML())}
 	}
 	nq := 1
-	m := &model{chain: []*qmodel{{max: h.Config.Max, exp: time.Duration(h.Config.ExpireSec) * time.Second, slots: map[int]slot{}}}}
-	gcEvery := []time.Duration{time.Duration(h.Config.GCSec) * time.Second}
+	m := &model{chain: []*qmodel{{max: h.Config.Max, exp: effExp(h.Config.ExpireSec), slots: map[int]slot{}}}}
+	gcEvery := []time.Duration{effGC(h.Config.GCSec)}
 	if h.Config.Parent {
 		nq = 2
-		m.chain = append(m.chain, &qmodel{max: h.Config.PMax, exp: time.Duration(h.Config.PExpire) * time.Second, slots: map[int]slot{}})
-		gcEvery = append(gcEvery, time.Duration(h.Config.PGC)*time.Second)
+		m.chain = append(m.chain, &qmodel{max: h.Config.PMax, exp: effExp(h.Config.PExpire), slots: map[int]slot{}})
+		gcEvery = append(gcEvery, effGC(h.Config.PGC))
 	}
 	// every concurrent strategy starts one collector goroutine; wait until each has armed its first timer
 	// (a quota whose collector never arms a timer is not an infrastructure problem: the history goes on and
